@@ -6,7 +6,7 @@ PID = "C11"
 MODULES = ["BeffVerif.Props.C11"]
 AUDIT = "BeffVerif/Audit/C11.lean"
 TAGS = ("c11.",)
-HYP = {"NoSplitIntersection": "D9"}
+HYP = {"NoSplitIntersection": "D9", "NoNumberKey": "D21"}
 OPEN = [
     "strict_iff at full strength (all constructors, declaredKeys through intersections): false on the current code (D9, negation proved); proved: strict_implies_default (full), strict_object_iff (one object position), strict_irrelevant_with_index",
 ]
@@ -49,15 +49,25 @@ def _pass_prog(seed, count, label):
                                 nontrivial=lambda r, i: TRI.search(i) is not None and any(a != b for _, a, b in TRI.findall(i)))
     return p
 
+def _prog_pass_lines(chk, lines, label):
+    engine = lambda c, ls: vcheck.two_stage(c, ls, stage2_mode="prog-strict")[0]
+    base = vcheck.known_by_hyp(chk, HYP)
+    return vcheck.corr_pass(chk, "prog-strict", lines, label, engine=engine, oracle_filter=vcheck.tag_filter(TAGS), extra_oracle=strict_oracle,
+                            known_matcher=lambda req, ir, orc, hyps: base(req, ir, "(oracle fail " + " ".join(t for t in orc.split() if t.startswith("c11.")) + ")", hyps),
+                            nontrivial=lambda r, i: TRI.search(i) is not None and any(a != b for _, a, b in TRI.findall(i)))
+
+def _corpus_prog(chk):
+    return _prog_pass_lines(chk, [l for l in vcheck.corpus_lines(PID) if l.startswith("(strict")], "compiled-strict(corpus)")
+
 def _corpus(chk):
-    lines = vcheck.corpus_lines(PID)
+    lines = [l for l in vcheck.corpus_lines(PID) if not l.startswith("(strict")]
     return vcheck.corr_pass(chk, "rt", lines, "rt(corpus)", engine="js", oracle_filter=vcheck.tag_filter(TAGS),
                             known_matcher=vcheck.known_by_hyp(chk, HYP), view=vcheck.rt_view(PID))
 
 def run(chk):
     chk.build_rust(); chk.build_js()
     quick = chk.tier == "quick"
-    passes = [_corpus] + ([_pass(chk.seed * 100 + 7, 6000, "rt(random)"), _pass_prog(chk.seed * 100 + 8, 1200, "compiled-strict(random)")] if quick else
+    passes = [_corpus, _corpus_prog] + ([_pass(chk.seed * 100 + 7, 6000, "rt(random)"), _pass_prog(chk.seed * 100 + 8, 1200, "compiled-strict(random)")] if quick else
                           [_pass(chk.seed * 100 + k, 25000, f"rt(random#{k})") for k in range(8)] + [_pass_prog(chk.seed * 100 + 50 + k, 8000, f"compiled-strict(random#{k})") for k in range(3)])
     return vcheck.generic_run(chk, MODULES, AUDIT, passes,
         [PID + ": Model/{JsVal,RT,Validate,Parse,Report}.lean model codegen-v2.ts:34-2430 and err.ts by hand; property names outside the modelled vocabulary "
@@ -68,6 +78,11 @@ def run(chk):
 def replay(chk, path):
     chk.build_js(); chk.build_lean(MODULES)
     lines = [l for l in open(path).read().split("\n") if l.strip() and not l.startswith(";")]
+    if lines and lines[0].startswith("(strict"):
+        chk.build_rust()
+        st = _prog_pass_lines(chk, lines, "compiled-strict(replay)")
+        print(st)
+        return chk.finish("proof", {"evaluations": len(lines), "distinct_nontrivial": st["nontrivial"]})
     st = vcheck.corr_pass(chk, "rt", lines, "rt(replay)", engine="js", oracle_filter=vcheck.tag_filter(TAGS),
                           known_matcher=vcheck.known_by_hyp(chk, HYP), view=vcheck.rt_view(PID))
     print(st)
